@@ -74,7 +74,20 @@ func VerifC11Handles() {
 func VerifC11Expiry() {
 	srv := ch.VerifNewServer()
 	ctx := context.Background()
-	switch verifChoice("case", 4) {
+	switch verifChoice("case", 5) {
+	case 4: // a periodic health check must not keep an idle connection alive: idleness counts from the last use
+		p := vPool(srv, 2, time.Hour, 100*time.Millisecond)
+		a, _ := p.Acquire(ctx)
+		a.Release()
+		verifClockAdvanceTo(time.Now().Add(60 * time.Millisecond).UnixMilli())
+		p.checkIdleConnsHealth() // idle for ~60 ms: kept
+		verifSettle()
+		verifAssert(!srv.Closed(0), "idle-within-limit-kept")
+		verifClockAdvanceTo(time.Now().Add(60 * time.Millisecond).UnixMilli())
+		p.checkIdleConnsHealth() // idle for ~120 ms since its last use: destroyed
+		verifSettle()
+		verifAssert(srv.Closed(0), "idle-time-counts-from-last-use")
+		p.Close()
 	case 0: // the client died while held
 		p := vPool(srv, 2, time.Hour, time.Hour)
 		a, err := p.Acquire(ctx)
